@@ -92,8 +92,37 @@ func (f *vhold) Call(s *slip.Scope, args slip.List, depth int) slip.Object {
 	return nil
 }
 
+// vchain reports, for the scope it is evaluated in and every scope a variable lookup reaches from there (the
+// recursive walk over Scope.Parents(), in that order), whether the scope is synchronized: "1" or "0" per scope.
+type vchain struct{ slip.Function }
+
+func (f *vchain) Call(s *slip.Scope, args slip.List, depth int) slip.Object {
+	var b []byte
+	var walk func(sc *slip.Scope)
+	walk = func(sc *slip.Scope) {
+		if sc.Synchronized() {
+			b = append(b, '1')
+		} else {
+			b = append(b, '0')
+		}
+		for _, p := range sc.Parents() {
+			walk(p)
+		}
+	}
+	walk(s)
+	return slip.String(b)
+}
+
 func defineBuiltins() {
 	defer func() { _ = recover() }()
+	slip.Define(
+		func(args slip.List) slip.Object {
+			f := vchain{Function: slip.Function{Name: "vchain", Args: args}}
+			f.Self = &f
+			return &f
+		},
+		&slip.FuncDoc{Name: "vchain", Args: []*slip.DocArg{}, Return: "string", Text: "verification: the synchronized flags of the scope chain"},
+		&slip.UserPkg)
 	slip.Define(
 		func(args slip.List) slip.Object {
 			f := vhold{Function: slip.Function{Name: "vhold", Args: args}}
@@ -227,6 +256,9 @@ func runJob(j job) (r result) {
 			if !bind(fmt.Sprintf("h%d", x), "(make-hash-table)") {
 				return
 			}
+		case "let":
+			// a variable of the scope the routines are started from: shared by all of them
+			scope.Let(slip.Symbol(fmt.Sprintf("v%d", x)), slip.Fixnum(0))
 		}
 	}
 	for _, src := range j.Setup {
@@ -327,21 +359,9 @@ loop:
 func Worker(ctx *common.Ctx) {
 	defineBuiltins()
 	s := slip.NewScope()
-	// the printer keeps a global indentation buffer that it grows on demand without synchronisation (known
-	// finding C17-printer-spaces-race, which has its own cold-process witness); unless told otherwise the
-	// worker grows it once, sequentially, so that not every run that prints an error is flagged by it
-	warm := "nil"
-	if os.Getenv("VERIF_C17_COLD") == "" {
-		nest := "x"
-		for k := 0; k < 90; k++ {
-			nest = "(aaaa " + nest + ")"
-		}
-		warm = "(write-to-string '" + nest + " :pretty t :right-margin 400)"
-	}
 	for _, src := range []string{
 		"(defclass c17cell () ((v :initform 0)))",
 		"(defflavor c17fcell ((v 0)) () :gettable-instance-variables :settable-instance-variables)",
-		warm,
 	} {
 		if o := common.EvalIn(s, src); o.Err != "" {
 			fmt.Fprintln(os.Stderr, "worker setup failed:", src, o.Err, o.Msg)
